@@ -2084,6 +2084,8 @@ class Affine:
                 q = q * np.ones(affine.shape)
             else:
                 q = q.reshape(affine.shape)
+        else:
+            raise TypeError('Unsupported reference distribution.')
 
         return KLConstr(affine, q, r)
 
